@@ -101,7 +101,7 @@ def rule_unimpl(chk, reach):
                 kind = "unimplemented!()" if "unimplemented" in (t.get("mac") or "") else "todo!()"
                 chk.ob(kstr, False, "%s reachable from rssl::compile: this construct aborts the compiler instead of producing a diagnostic" % kind,
                        where(b, ln), sample={"site": kstr})
-    chk.floor("C08.floor/unimpl-sites", n, 18, "todo!/unimplemented! sites in the workspace")
+    chk.floor("C08.floor/unimpl-sites", n, 8, "todo!/unimplemented! sites in the workspace")
 
 
 def check_reason(f, r):
